@@ -44,8 +44,8 @@ HELPERS2 = ["Galactic_to_FK5", "FK4_to_FK5", "ICRS_to_FK5", "Galactic_to_FK4", "
 
 @st.composite
 def style_spec(draw):
-    return {"color": draw(st.sampled_from(["#ff0000", "#00ff00", "#123456", "0.35", "#abcdef"])), "alpha": draw(st.sampled_from([0.25, 0.5, 1.0])),
-            "markersize": draw(st.integers(1, 9)), "linewidth": draw(st.sampled_from([1, 2.5])), "marker": draw(st.sampled_from(["o", "s", "^"]))}
+    return {"color": draw(st.sampled_from(["#ff0000", "#00ff00", "#123456", "0.35", "#abcdef"])), "alpha": draw(st.sampled_from([0.25, 0.5, 1.0, 0.0, 0])),
+            "markersize": draw(st.integers(0, 9)), "linewidth": draw(st.sampled_from([1, 2.5, 0])), "marker": draw(st.sampled_from(["o", "s", "^"]))}
 
 
 @st.composite
